@@ -43,6 +43,7 @@ def main() -> int:
     except ModuleNotFoundError:
         print(f"CHECK-BROKEN: no check for {prop}", file=sys.stderr)
         return core.EXIT_BROKEN
+    run_root = core.begin_run()
     try:
         rc = mod.run(a.tier, seed)
     except core.HarnessError as e:
@@ -53,7 +54,7 @@ def main() -> int:
         print("CHECK-BROKEN: harness exception", file=sys.stderr)
         rc = core.EXIT_BROKEN
     finally:
-        core.cleanup_scratch()
+        core.end_run(run_root)
     return rc
 
 
